@@ -258,7 +258,8 @@ Definition Q (s : st) (c : ctl) (ms : mon) : Prop :=
 Definition IP (s : st) (ms : mon) : Prop :=
   match pc s with
   | PcNone | PcDone _ => True
-  | PcNotStarted | PcPermit0 | PcSleep0 | PcPaused => Gone s ms \/ Bal s ms
+  | PcNotStarted | PcPermit0 => Gone s ms \/ Bal (set_stashed s None) ms      (* `_run` clears its stash when it starts *)
+  | PcSleep0 | PcPaused => Gone s ms \/ Bal s ms
   | PcCmd _ => Gone s ms \/ exists ps fr, Proc s ms (ucCmd ms) (ocCmd ms) ps fr /\ startedF fr /\ (ps <> [] -> must_cancel s = true)
   | PcFinalSleep _ => ExitP s ms
   end.
@@ -463,7 +464,8 @@ Proof.
   split; [exact Htyp|]. split; [exact Hn|].
   unfold IP. assert (G : Gone s' (set_mstate ms (track (mstate ms) o)) \/ Bal s' (set_mstate ms (track (mstate ms) o))).
   { destruct Hq as [Hq|Hq]; [left; eapply Gone_tr|right; eapply Bal_tr]; try eassumption; try reflexivity; try apply mono_set_mstate. }
-  destruct (pc s'); cbn in Hpc; try contradiction; exact G.
+  destruct (pc s'); cbn in Hpc; try contradiction; try exact G.
+  all: destruct G as [G|G]; [left; exact G|right; eapply Bal_tr; [| | | | |exact G]; try reflexivity; [right; right; reflexivity|apply mono_refl]].
 Qed.
 
 Lemma dstep_CTop_fin (s : st) ms s' o : Q s CTop ms -> dstep s CTop = inr (s', o) ->
